@@ -7,6 +7,7 @@ import (
 	"math"
 	"math/big"
 	"os"
+	"reflect"
 	"os/exec"
 	"runtime/debug"
 	"strconv"
@@ -19,8 +20,19 @@ import (
 // groupBounds: every boundary of a scalar schema in every Go representation (C02).
 func groupBounds(s *sink, g *hx.Gen) {
 	t := g.Scalar()
+	if g.R.Intn(8) == 0 {
+		// the any schema: it converts every integer kind to int64 and must refuse what does not fit
+		t = &hx.Ty{T: "any"}
+	}
 	var vals []*hx.Val
 	switch t.T {
+	case "any":
+		for _, k := range []string{"uint64", "uint"} {
+			vals = append(vals, hx.Uint(k, math.MaxUint64), hx.Uint(k, 1<<63), hx.Uint(k, 1<<63+1), hx.Uint(k, math.MaxInt64), hx.Uint(k, 0))
+		}
+		vals = append(vals, hx.Int("int64", math.MinInt64), hx.Int("int64", math.MaxInt64), hx.Uint("uint32", math.MaxUint32), hx.Uint("uint8", 255),
+			hx.Int("int8", -128), hx.F64(1e300), hx.F32(1.5), hx.List(hx.Uint("uint64", math.MaxUint64)), hx.StrAny([2]*hx.Val{hx.Str("k"), hx.Uint("uint", 1<<63)}),
+			hx.AnyAny([2]*hx.Val{hx.Uint("uint64", math.MaxUint64), hx.Int("int64", 1)}))
 	case "int", "enumInt":
 		var pts []int64
 		add := func(n int64) { pts = append(pts, n-1, n, n+1) }
@@ -205,7 +217,8 @@ func groupBounds(s *sink, g *hx.Gen) {
 		for _, k := range []string{"uint", "uint8", "uint16", "uint32", "uint64"} {
 			vals = append(vals, hx.Uint(k, 0), hx.Uint(k, 1), hx.Uint(k, 2))
 		}
-		vals = append(vals, hx.Uint("uint64", math.MaxUint64), hx.Uint("uint64", 1<<32), hx.Bool(true), hx.Bool(false), hx.F64(1), hx.F64(0), hx.Nil())
+		vals = append(vals, hx.Uint("uint64", math.MaxUint64), hx.Uint("uint64", 1<<32), hx.Bool(true), hx.Bool(false), hx.F64(1), hx.F64(0), hx.Nil(),
+			hx.Uint("uint", math.MaxUint64), hx.Uint("uint", 1<<63), hx.Uint("uint", math.MaxInt64), hx.Uint("uint64", 1<<63), hx.Uint("uint", math.MaxUint64-1))
 	case "pattern":
 		for _, w := range []string{"^a+$", "a(b", "", "[", "x|y", "\\d+", "(?P<n>a)", "a{2,1}", "a\n", "\n", "\r\n", "^a$\r\n", "a\\\n", "a\\\r", " a ", "\ta\t", "a\n\n"} {
 			vals = append(vals, hx.Str(w))
@@ -272,6 +285,19 @@ func groupContainers(s *sink, g *hx.Gen) {
 	for i := 0; i < 6; i++ {
 		chain(s, t, g.Value(t, hx.Env{}, 0), "containers")
 	}
+	// the empty container in its other Go representations: a nil slice / nil map (what `var x []T` and
+	// a decoder's zero value are), untyped and typed - the size bounds apply to them as to `[]any{}`
+	if t.T == "list" {
+		for _, lt := range []string{"", "string", "int64"} {
+			chain(s, t, &hx.Val{Kind: "l", NilC: true, LT: lt}, "containers:nil")
+		}
+		wrapped := &hx.Ty{T: "list", Item: t}
+		chain(s, wrapped, hx.List(&hx.Val{Kind: "l", NilC: true}), "containers:nil-nested")
+	} else {
+		for _, mk := range []string{"any", "string"} {
+			chain(s, t, &hx.Val{Kind: "m", MK: mk, MVA: true, NilC: true}, "containers:nil")
+		}
+	}
 }
 
 func keyScalar(g *hx.Gen) *hx.Ty {
@@ -291,6 +317,13 @@ func groupObjects(s *sink, g *hx.Gen) {
 		t := g.OneOf(1, nil)
 		for i := 0; i < 8; i++ {
 			chain(s, t, g.Value(t, hx.Env{}, 0), "objects:oneof")
+		}
+		if t.IntKey {
+			// discriminators of the platform-sized unsigned type beyond int64: they denote no key (and must not
+			// wrap into a negative one, which the generated one-ofs declare)
+			for _, d := range []*hx.Val{hx.Uint("uint", math.MaxUint64), hx.Uint("uint", math.MaxUint64-1), hx.Uint("uint", 1<<63), hx.Uint("uint64", math.MaxUint64)} {
+				chain(s, t, hx.StrAny([2]*hx.Val{hx.Str(t.Disc), d}), "objects:oneof-uint")
+			}
 		}
 		return
 	}
@@ -496,6 +529,60 @@ func groupHistory(s *sink, g *hx.Gen) {
 			}
 		}
 	}
+	// every sixth history: properties whose defaults are mutable values (a list, a map, an object): the
+	// callers edit what they get back, and every later call must still receive the declared default
+	if unitPool == nil && g.R.Intn(6) == 0 {
+		t = &hx.Ty{T: "obj", ID: "Job", Props: []hx.NamedProp{
+			{Name: "name", P: &hx.Prop{Ty: &hx.Ty{T: "str"}}},
+			{Name: "tags", P: &hx.Prop{Ty: &hx.Ty{T: "list", Item: &hx.Ty{T: "str"}}, Default: hx.MkDefault(`["beta","alpha","gamma"]`)}},
+			{Name: "limits", P: &hx.Prop{Ty: &hx.Ty{T: "map", K: &hx.Ty{T: "str"}, V: &hx.Ty{T: "int"}}, Default: hx.MkDefault(`{"cpu":2,"mem":4}`)}},
+			{Name: "extra", P: &hx.Prop{Ty: &hx.Ty{T: "any"}, Default: hx.MkDefault(`{"a":[1,2,3],"b":{"c":"d"}}`)}},
+			{Name: "inner", P: &hx.Prop{Ty: &hx.Ty{T: "obj", ID: "In", Props: []hx.NamedProp{{Name: "x", P: &hx.Prop{Ty: &hx.Ty{T: "int"}}},
+				{Name: "ys", P: &hx.Prop{Ty: &hx.Ty{T: "list", Item: &hx.Ty{T: "int"}}, Default: hx.MkDefault(`[3,1,2]`)}}}}, Default: hx.MkDefault(`{"x":1}`)}},
+		}}
+		if g.R.Intn(2) == 0 {
+			t = &hx.Ty{T: "list", Item: t}
+		}
+		for rep := 0; rep < 5; rep++ {
+			for _, v := range []*hx.Val{hx.StrAny([2]*hx.Val{hx.Str("name"), hx.Str("x")}), hx.StrAny(),
+				hx.StrAny([2]*hx.Val{hx.Str("tags"), hx.List(hx.Str("own"))}), hx.StrAny([2]*hx.Val{hx.Str("inner"), hx.StrAny()})} {
+				if t.T == "list" {
+					v = hx.List(v, hx.StrAny())
+				}
+				unitPool = append(unitPool, v)
+			}
+		}
+		s.stats["history:mutable-defaults"]++
+	}
+	// every sixth history: a one-of whose members have several optional properties, fed rejected inputs
+	// with a key that is not a string next to valid ones (a scratch buffer handed back uncleared on that
+	// early return would show in the next call), interleaved with minimal valid inputs
+	if unitPool == nil && g.R.Intn(6) == 0 {
+		mk := func(id string) *hx.Ty {
+			return &hx.Ty{T: "obj", ID: id, Props: []hx.NamedProp{
+				{Name: "name", P: &hx.Prop{Ty: &hx.Ty{T: "str"}}}, {Name: "admin", P: &hx.Prop{Ty: &hx.Ty{T: "bool"}}},
+				{Name: "quota", P: &hx.Prop{Ty: &hx.Ty{T: "int"}}}}}
+		}
+		oo := &hx.Ty{T: "oneOf", Disc: "kind", Members: []hx.Member{{Key: "user", Ty: mk("U")}, {Key: "svc", Ty: mk("S")}}}
+		t = oo
+		if g.R.Intn(2) == 0 {
+			t = &hx.Ty{T: "obj", ID: "Acc", Props: []hx.NamedProp{{Name: "account", P: &hx.Prop{Ty: oo}}}}
+		}
+		wrap := func(v *hx.Val) *hx.Val {
+			if t == oo {
+				return v
+			}
+			return hx.StrAny([2]*hx.Val{hx.Str("account"), v})
+		}
+		for rep := 0; rep < 6; rep++ {
+			bad := hx.AnyAny([2]*hx.Val{hx.Str("kind"), hx.Str("user")}, [2]*hx.Val{hx.Str("name"), hx.Str("mallory")},
+				[2]*hx.Val{hx.Str("admin"), hx.Bool(true)}, [2]*hx.Val{hx.Str("quota"), hx.Int("int64", 1000000)}, [2]*hx.Val{hx.Int("int64", 7), hx.Str("x")})
+			unitPool = append(unitPool, wrap(bad),
+				wrap(hx.StrAny([2]*hx.Val{hx.Str("kind"), hx.Str([]string{"user", "svc"}[rep%2])}, [2]*hx.Val{hx.Str("name"), hx.Str("bob")})),
+				wrap(hx.AnyAny([2]*hx.Val{hx.Str("kind"), hx.Str("svc")})))
+		}
+		s.stats["history:oneof-badkey"]++
+	}
 	// every fifth history: presence rules naming several other fields, fed every combination of set
 	// fields in random order (a rejected call must not rewrite the rule lists of the schema)
 	if unitPool == nil && g.R.Intn(5) == 0 {
@@ -563,12 +650,23 @@ func groupHistory(s *sink, g *hx.Gen) {
 	if t.T == "scope" && t.Root == "R" && len(unitPool) > 0 {
 		n = len(unitPool)
 	}
+	sequential := unitPool != nil && ((s.stats["history:oneof-badkey"] > 0 && (t.T == "oneOf" || (t.T == "obj" && t.ID == "Acc"))) ||
+		(t.T == "obj" && t.ID == "Job") || (t.T == "list" && t.Item != nil && t.Item.ID == "Job"))
+	if sequential {
+		n = len(unitPool)
+	}
 	var natives []any
 	for i := 0; i < n; i++ {
 		op := []string{"U", "U", "U", "C", "V", "S"}[g.R.Intn(6)]
 		var v *hx.Val
 		var arg any
-		if (op == "V" || op == "S") && len(natives) > 0 && g.R.Intn(3) > 0 {
+		if sequential {
+			op = "U"
+		}
+		if sequential {
+			v = unitPool[i]
+			arg = v.ToGo()
+		} else if (op == "V" || op == "S") && len(natives) > 0 && g.R.Intn(3) > 0 {
 			arg = natives[g.R.Intn(len(natives))]
 			v = hx.Enc(arg)
 		} else {
@@ -598,7 +696,10 @@ func groupHistory(s *sink, g *hx.Gen) {
 				Cases: []int{id}, Schema: t, Input: v, Detail: []string{"used instance: " + resUsed.JSON(), "fresh instance: " + resFresh.JSON()}})
 		}
 		if op == "U" && resUsed.R == "ok" {
-			natives = append(natives, out)
+			natives = append(natives, deepCopyGo(out))
+			// what Unserialize returns belongs to the caller: edit it in place (as a step handler sorting its
+			// input would); later results of this instance must not show the edit
+			scribble(out)
 		}
 	}
 	if after := describe(); after != before {
@@ -865,7 +966,7 @@ func groupRules(s *sink, g *hx.Gen) {
 		return out
 	}
 	// container path around the object
-	keyPool := []string{"k", "cpu%", "100%d", "%s", "x%%y", "a b", "a.b", "[0]", "é", "", "rate(%)"}
+	keyPool := []string{"k", "cpu%", "100%d", "%s", "x%%y", "a b", "a.b", "[0]", "é", "", "rate(%)", "Aoife O'Brien", "rock'n'roll", "'", "a' -> 'b", "back\\slash", "q\"uote"}
 	type wrap struct {
 		ty  func(*hx.Ty) *hx.Ty
 		val func(*hx.Val) *hx.Val
@@ -1047,7 +1148,8 @@ func groupErrorValues(s *sink, g *hx.Gen) {
 	inner := &hx.Ty{T: "obj", ID: "Lim", Props: []hx.NamedProp{
 		{Name: "cpu", P: &hx.Prop{Ty: &hx.Ty{T: "int"}, Required: true}}, {Name: "mem", P: &hx.Prop{Ty: &hx.Ty{T: "int"}}}}}
 	item := &hx.Ty{T: "obj", ID: "Item", Props: []hx.NamedProp{
-		{Name: "name", P: &hx.Prop{Ty: &hx.Ty{T: "str"}, Required: true}}, {Name: "limits", P: &hx.Prop{Ty: inner}}}}
+		{Name: "name", P: &hx.Prop{Ty: &hx.Ty{T: "str"}, Required: true}}, {Name: "limits", P: &hx.Prop{Ty: inner}},
+		{Name: "legacy", P: &hx.Prop{Ty: &hx.Ty{T: "str"}, Disabled: true}}, {Name: "old", P: &hx.Prop{Ty: &hx.Ty{T: "int"}, Disabled: true}}}}
 	t := &hx.Ty{T: "obj", ID: "Doc", Props: []hx.NamedProp{
 		{Name: "containers", P: &hx.Prop{Ty: &hx.Ty{T: "list", Item: item}}},
 		{Name: "sidecars", P: &hx.Prop{Ty: &hx.Ty{T: "map", K: &hx.Ty{T: "str"}, V: item}}}}}
@@ -1059,6 +1161,9 @@ func groupErrorValues(s *sink, g *hx.Gen) {
 		map[string]any{"containers": []any{good("a"), good("b"), "bare string"}},                                                    // containers[2] not a map
 		map[string]any{"sidecars": map[string]any{"proxy": map[string]any{"limits": map[string]any{"cpu": 1}}}},                    // sidecars[proxy].name missing
 		map[string]any{"containers": []any{map[string]any{"name": "x", "limits": "not a map"}}},                                    // containers[0].limits not a map
+		map[string]any{"containers": []any{good("a"), good("b"), good("c"), map[string]any{"name": "d", "legacy": "x"}}},           // containers[3].legacy disabled (no reason)
+		map[string]any{"sidecars": map[string]any{"s": map[string]any{"name": "d", "legacy": "y"}}},                                 // sidecars[s].legacy disabled (no reason)
+		map[string]any{"containers": []any{map[string]any{"name": "d", "old": 1}}},                                                 // containers[0].old disabled (with reason)
 	}
 	type kept struct {
 		op   string
@@ -1103,6 +1208,8 @@ func groupErrorValues(s *sink, g *hx.Gen) {
 				s.stats["errorvalues:bad"]++
 				if bad <= 3 {
 					s.finding(Finding{Prop: "C17", What: "a rejection's path changed after it was returned (" + how + "): errors of different calls share state",
+						Detail: []string{k.op, "when returned: " + pathText(k.path), "read again later: " + pathText(now.Path)}})
+					s.finding(Finding{Prop: "C12", What: "the rejection of one call is rewritten by later calls (" + how + "): the same (schema, argument) is reported differently from one evaluation to the next",
 						Detail: []string{k.op, "when returned: " + pathText(k.path), "read again later: " + pathText(now.Path)}})
 				}
 			}
@@ -1180,4 +1287,69 @@ func groupDeepValues(s *sink) {
 				Cases: []int{c.ID}, Schema: t, Detail: []string{"deep-value", res.Msg}})
 		}
 	}
+}
+
+// scribble edits a result in place: every map gets an extra entry, every slice has its elements
+// overwritten with its first one reversed in order; scalars cannot be edited.
+func scribble(x any) {
+	v := reflect.ValueOf(x)
+	switch v.Kind() { //nolint:exhaustive
+	case reflect.Map:
+		for _, k := range v.MapKeys() {
+			scribble(v.MapIndex(k).Interface())
+		}
+		if v.Type().Key().Kind() == reflect.String && v.Type().Elem().Kind() == reflect.Interface && !v.IsNil() {
+			v.SetMapIndex(reflect.ValueOf("scribbled by the caller").Convert(v.Type().Key()), reflect.ValueOf("x"))
+		}
+	case reflect.Slice:
+		for i := 0; i < v.Len(); i++ {
+			scribble(v.Index(i).Interface())
+		}
+		for i, j := 0, v.Len()-1; i < j; i, j = i+1, j-1 {
+			a, b := v.Index(i).Interface(), v.Index(j).Interface()
+			if v.Index(i).CanSet() {
+				v.Index(i).Set(reflect.ValueOf(b))
+				v.Index(j).Set(reflect.ValueOf(a))
+			}
+		}
+	case reflect.Pointer:
+		if !v.IsNil() {
+			scribble(v.Elem().Interface())
+		}
+	}
+}
+
+// deepCopyGo copies maps and slices (the harness keeps natives for later Validate / Serialize calls;
+// they must not see the scribbles).
+func deepCopyGo(x any) any {
+	v := reflect.ValueOf(x)
+	switch v.Kind() { //nolint:exhaustive
+	case reflect.Map:
+		if v.IsNil() {
+			return x
+		}
+		c := reflect.MakeMapWithSize(v.Type(), v.Len())
+		for _, k := range v.MapKeys() {
+			e := deepCopyGo(v.MapIndex(k).Interface())
+			ev := reflect.ValueOf(e)
+			if e == nil {
+				ev = reflect.Zero(v.Type().Elem())
+			}
+			c.SetMapIndex(k, ev)
+		}
+		return c.Interface()
+	case reflect.Slice:
+		if v.IsNil() {
+			return x
+		}
+		c := reflect.MakeSlice(v.Type(), v.Len(), v.Len())
+		for i := 0; i < v.Len(); i++ {
+			e := deepCopyGo(v.Index(i).Interface())
+			if e != nil {
+				c.Index(i).Set(reflect.ValueOf(e))
+			}
+		}
+		return c.Interface()
+	}
+	return x
 }
